@@ -11,7 +11,7 @@ from . import refmath as R
 
 BO = dict(ADD=0, AVERAGE_POOL_2D=1, CONCATENATION=2, CONV_2D=3, DEPTHWISE_CONV_2D=4, FULLY_CONNECTED=9, LOGISTIC=14, MAX_POOL_2D=17, MUL=18, RELU=19, RELU_N1_TO_1=20, RELU6=21,
           RESHAPE=22, RESIZE_BILINEAR=23, SOFTMAX=25, TANH=28, CUSTOM=32, PAD=34, TRANSPOSE=39, MEAN=40, SUB=41, SQUEEZE=43, STRIDED_SLICE=45, SPLIT=49, MAXIMUM=55, MINIMUM=57,
-          NEG=59, SLICE=65, TRANSPOSE_CONV=67, EXPAND_DIMS=70, RESIZE_NEAREST_NEIGHBOR=97, LEAKY_RELU=98, ABS=101, REVERSE_V2=105, QUANTIZE=114, HARD_SWISH=117, FLOOR_DIV=90)
+          NEG=59, SLICE=65, SPLIT_V=102, TRANSPOSE_CONV=67, EXPAND_DIMS=70, RESIZE_NEAREST_NEIGHBOR=97, LEAKY_RELU=98, ABS=101, REVERSE_V2=105, QUANTIZE=114, HARD_SWISH=117, FLOOR_DIV=90)
 NAME = {v: k for k, v in BO.items()}
 RANGE = {"int8": (-128, 127), "uint8": (0, 255), "int16": (-32768, 32767), "int32": (-(2 ** 31), 2 ** 31 - 1)}
 APPROX = {"LOGISTIC", "TANH", "LEAKY_RELU", "HARD_SWISH", "SOFTMAX", "MEAN", "RESIZE_BILINEAR", "RESIZE_NEAREST_NEIGHBOR", "AVERAGE_POOL_2D"}
@@ -540,6 +540,13 @@ class Interp:
         if requant:
             self.approx_ops.append("CONCATENATION")
         return np.concatenate(parts, axis=axis)
+
+    def op_SPLIT_V(self, op):
+        sizes = [int(v) for v in self.const(op.inputs[1]).reshape(-1)]
+        axis = int(self.const(op.inputs[2]).reshape(-1)[0])
+        x = self.get(op.inputs[0])
+        cuts = np.cumsum(sizes)[:-1]
+        return np.split(x, cuts, axis=axis)
 
     def op_SPLIT(self, op):
         axis = int(self.const(op.inputs[0]).reshape(-1)[0])
